@@ -39,13 +39,14 @@ func NewSolicitMountedStreamWithErr(err error) SolicitMountedStream {
 
 // AcceptMountedStream claims ownership of the stream.
 func (s *solicitMountedStream) AcceptMountedStream() (link.MountedStream, bool, error) {
-	if s.err != nil {
-		return nil, false, s.err
-	}
-
 	simhook.Yield("solicit/mounted/accept", "")
 	s.mu.Lock()
 	defer s.mu.Unlock()
+
+	// err is written by Close while holding mu: check it under the lock.
+	if s.err != nil {
+		return nil, false, s.err
+	}
 
 	if s.accepted {
 		return nil, true, nil
